@@ -251,6 +251,10 @@ func (x *Exec) apiDo(op Op) (res *Observed) {
 		page := gofakes3.ListBucketPage{MaxKeys: int64(op.I("max"))}
 		if op.B("hasMarker") {
 			page.HasMarker, page.Marker = true, x.Conc.Key(op.Key("marker"))
+			if op.B("v2") && page.Marker != "" {
+				// callers of the Go API also resume with only Marker set (HasMarker tells an empty marker from none)
+				page.HasMarker = false
+			}
 		}
 		if !x.Sys.Paginates() && !page.IsEmpty() {
 			return nil // the fall-back for backends that do not paginate is the front end's
